@@ -304,7 +304,7 @@ class Check:
                 if key not in [h[0] for h in self.known_hits]:
                     self.known_hits.append((key, k.get("what", what)))
                 return False
-        if len(self.violations) >= 50:
+        if len(self.violations) >= 50 or key in [k for k, _, _ in self.violations]:
             return True
         name = name or (re.sub(r"[^A-Za-z0-9_.-]", "_", key)[:80] + ".json")
         p = self.replay_file(name, replay_content)
